@@ -517,16 +517,26 @@ impl Session {
 
     fn not_quiescent(&self) -> Option<String> {
         let reg = verif::REG.lock().unwrap();
-        let mut delivered = 0u64;
-        let mut sig = 0u64;
-        for r in reg.conns.values() {
-            delivered += r.q_done + r.q_dropped;
-            sig += r.kills_done + r.kills_lost;
-            if r.quit && !r.ended && !r.dropped {
+        // connections whose client does not read are exempt: their task may sit in a flush for ever
+        let exempt: std::collections::HashSet<&String> =
+            self.clients.values().filter(|c| c.noread && !c.half_closed).map(|c| &c.local).collect();
+        for (key, r) in reg.conns.iter() {
+            if exempt.contains(key) || r.dropped {
+                continue;
+            }
+            if r.quit && !r.ended {
                 return Some("connection quitting, not yet ended".into());
             }
             if r.ended && !r.dropped {
                 return Some("connection ended, slot not yet released".into());
+            }
+            if !r.ended {
+                if r.q_done + r.q_dropped < r.enq {
+                    return Some(format!("{}: {} of {} queued lines delivered", key, r.q_done + r.q_dropped, r.enq));
+                }
+                if r.kills_done + r.kills_lost < r.sigs {
+                    return Some(format!("{}: signal pending", key));
+                }
             }
         }
         for (id, c) in self.clients.iter() {
@@ -537,36 +547,53 @@ impl Session {
                     }
                 }
                 Some(r) => {
-                    if r.ended || r.dropped {
-                        continue;
-                    }
-                    if c.noread {
+                    if r.ended || r.dropped || (c.noread && !c.half_closed) {
                         continue;
                     }
                     if c.half_closed {
                         return Some(format!("{}: closed by client, not yet ended", id));
                     }
                     if r.lines_done < c.sent_lines {
-                        return Some(format!(
-                            "{}: {} of {} lines done",
-                            id, r.lines_done, c.sent_lines
-                        ));
+                        return Some(format!("{}: {} of {} lines done", id, r.lines_done, c.sent_lines));
                     }
                 }
             }
         }
-        let enq = verif::ENQ.load(Ordering::SeqCst);
-        if delivered < enq {
-            // lines queued for connections that do not read are exempt
-            let blocked: u64 = 0;
-            if delivered + blocked < enq {
-                return Some(format!("{} of {} queued lines delivered", delivered, enq));
+        None
+    }
+
+    // Make the connection `victim` a stalled one: its client stops reading and `flooder` sends it
+    // messages until the server-side task of `victim` is observed blocked in a flush.
+    pub async fn stall(&mut self, victim: &str, flooder: &str) -> Result<(), String> {
+        let vnick = {
+            let snap = self.snapshot().await;
+            snap["conns"][victim]["nick"][0].as_str().unwrap_or("").to_string()
+        };
+        if vnick.is_empty() {
+            return Err("victim not registered".into());
+        }
+        let vlocal = self.clients.get(victim).map(|c| c.local.clone()).ok_or("no victim")?;
+        if let Some(c) = self.clients.get_mut(victim) {
+            c.noread = true;
+        }
+        let line = format!("PRIVMSG {} :{}\r\n", vnick, "x".repeat(1900));
+        let batch: Vec<u8> = line.as_bytes().iter().cycle().take(line.len() * 400).cloned().collect();
+        for _ in 0..120 {
+            self.send_bytes(flooder, &batch).await?;
+            if let Err(StepIssue::Watchdog(w)) = self.quiesce(Duration::from_millis(4000)).await {
+                return Err(format!("watchdog while flooding: {}", w));
+            }
+            // blocked = a flush of the victim's task has been pending for 100 ms
+            tokio::time::sleep(Duration::from_millis(120)).await;
+            let now = std::time::SystemTime::now().duration_since(std::time::UNIX_EPOCH).map(|d| d.as_micros() as u64).unwrap_or(0);
+            let reg = verif::REG.lock().unwrap();
+            if let Some(r) = reg.conns.get(&vlocal) {
+                if r.in_flush_since_us != 0 && now.saturating_sub(r.in_flush_since_us) > 100_000 {
+                    return Ok(());
+                }
             }
         }
-        if sig < verif::SIG_SENT.load(Ordering::SeqCst) {
-            return Some("signal pending".into());
-        }
-        None
+        Err("could not stall the victim".into())
     }
 
     // read from every socket exactly what the server wrote to it
@@ -677,6 +704,7 @@ impl Session {
                 ] {
                     m.insert(k.to_string(), r[k].clone());
                 }
+                m.insert("stalled".to_string(), Value::Bool(c.noread));
                 out.insert(id.clone(), Value::Object(m));
             }
         }
@@ -686,7 +714,6 @@ impl Session {
         if let Some(us) = v["users"].as_object_mut() {
             for (_, u) in us.iter_mut() {
                 if let Some(o) = u.as_object_mut() {
-                    o.remove("killable");
                     o.remove("qclosed");
                 }
             }
@@ -749,6 +776,14 @@ impl Session {
             "!noread" => {
                 if let Some(c) = self.clients.get_mut(id) {
                     c.noread = true;
+                }
+            }
+            "!stall" => {
+                // p = [[flooder connection]]
+                let p = wire::groups(cmd);
+                let fl = p.get(0).and_then(|g| g.get(0)).cloned().unwrap_or_default();
+                if let Err(e) = self.stall(id, &fl).await {
+                    issue = Some(format!("stall failed: {}", e));
                 }
             }
             _ => {
